@@ -3,6 +3,7 @@ package server
 import (
 	"fmt"
 	"net/http"
+	"strings"
 
 	"github.com/tidwall/tile38/core"
 	"github.com/tidwall/tile38/internal/collection"
@@ -122,6 +123,9 @@ func (s *Server) Collect(ch chan<- prometheus.Metric) {
 		add objects/points/strings stats for each collection
 	*/
 	s.cols.Scan(func(key string, col *collection.Collection) bool {
+		// a label that is not valid UTF-8 makes MustNewConstMetric panic, on
+		// a goroutine of the registry where nothing recovers
+		key = strings.ToValidUTF8(key, "\uFFFD")
 		ch <- prometheus.MustNewConstMetric(
 			metricDescriptions["collection_objects"],
 			prometheus.GaugeValue,
